@@ -39,7 +39,13 @@ func c14Jobs(cases []*lab.Case, lo, n, perJob int, mixed bool, rot int) []proto.
 			if len(in) > 300 {
 				in = cs.Inputs[0]
 			}
-			steps = append(steps, proto.Step{Entry: (j + k) % len(cs.G.Rules), Input: in})
+			st := proto.Step{Entry: (j + k) % len(cs.G.Rules), Input: in}
+			if (j+k)%3 == 0 {
+				// parse once more without Reset (header, then body, from one buffer)
+				again := (j + k + 1) % len(cs.G.Rules)
+				st.Again = &again
+			}
+			steps = append(steps, st)
 		}
 		m := proto.Mode{}
 		// several goroutines are set up from the same option values (shared by the runner)
@@ -70,7 +76,14 @@ func evalConc(c *drv.Ctx, cases []*lab.Case, sets [][]proto.Job, procs []int, st
 		pkg   string
 		entry int
 		in    string
+		again int
 		mode  proto.Mode
+	}
+	againOf := func(s proto.Step) int {
+		if s.Again == nil {
+			return -1
+		}
+		return *s.Again
 	}
 	seq := map[key]int{}
 	var reqs []proto.Req
@@ -80,10 +93,11 @@ func evalConc(c *drv.Ctx, cases []*lab.Case, sets [][]proto.Job, procs []int, st
 				continue
 			}
 			for _, s := range j.Steps {
-				k := key{j.Pkg, s.Entry, string(s.Input), j.Mode}
+				k := key{j.Pkg, s.Entry, string(s.Input), againOf(s), j.Mode}
 				if _, ok := seq[k]; !ok {
 					seq[k] = len(reqs)
-					reqs = append(reqs, proto.Req{Kind: "run", Pkg: j.Pkg, Entry: s.Entry, Input: s.Input, Modes: []proto.Mode{j.Mode}})
+					// the reference observation: the same step on an instance of its own, run alone
+					reqs = append(reqs, proto.Req{Kind: "hist", Pkg: j.Pkg, Steps: []proto.Step{s}, Modes: []proto.Mode{j.Mode}})
 				}
 			}
 		}
@@ -129,7 +143,7 @@ func evalConc(c *drv.Ctx, cases []*lab.Case, sets [][]proto.Job, procs []int, st
 				if si >= len(o.Resp.Jobs[ji]) {
 					break
 				}
-				so := outs[seq[key{j.Pkg, s.Entry, string(s.Input), j.Mode}]]
+				so := outs[seq[key{j.Pkg, s.Entry, string(s.Input), againOf(s), j.Mode}]]
 				if len(so.Resp.Obs) == 0 {
 					continue
 				}
@@ -237,7 +251,7 @@ func init() {
 		return "", nil
 	})
 	drv.Register("C14",
-		"12 (quick) / 60 (thorough) well-formed grammars, default and -inline -switch parsers built into one binary with the race detector; job sets of 8 goroutines over one parser and of 16 goroutines over two different parsers, each goroutine owning one instance (Init with option values shared between goroutines: Size(64), DisableMemoize, Pretty, none) and running 3-4 Reset/Parse/Execute/Sprint/Error steps behind a common barrier, repeated under GOMAXPROCS 2, 4 and 16; every observation must equal the same parse run alone in the same binary, the race detector must stay silent and the worker must survive. Every job set is non-trivial (>=8 concurrent instances); distinct = (job set, GOMAXPROCS).",
+		"12 (quick) / 60 (thorough) well-formed grammars, default and -inline -switch parsers built into one binary with the race detector; job sets of 8 goroutines over one parser and of 16 goroutines over two different parsers, each goroutine owning one instance (Init with option values shared between goroutines: Size(64), DisableMemoize, Pretty, none) and running 3-4 Reset/Parse/Execute/Sprint/Error steps (one in three followed by a second Parse of another rule without Reset) behind a common barrier, repeated under GOMAXPROCS 2, 4 and 16; every observation must equal the same parse run alone in the same binary, the race detector must stay silent and the worker must survive. Every job set is non-trivial (>=8 concurrent instances); distinct = (job set, GOMAXPROCS).",
 		[]string{
 			"schedules are sampled by the Go scheduler, not enumerated; the race detector is happens-before based, so an unsynchronised conflicting pair is flagged whenever both accesses execute",
 			"PrintSyntaxTree (global os.Stdout) is left out of concurrent jobs",
